@@ -30,7 +30,7 @@ import (
 
 func init() {
 	register("c04", checkC04)
-	children["c04"] = func(args []string) { cliChildLoop(c04Child) }
+	children["c04"] = func(args []string) { cliChildLoop(false, c04Child) }
 }
 
 type c04Case struct {
